@@ -145,20 +145,21 @@ def respell(draw, case):
         if ws == 0:
             sep = ' '
         else:
-            sep = draw(st.sampled_from([' ', '  ', '\t', ' \t ', '\n', ' \n', '\n  ', '\n\n', '   ']))
+            sep = draw(st.sampled_from([' ', '  ', '\t', ' \t ', '\n', ' \n', '\n  ', '\n\n', '   ', '\r\n', '\r\n\t', '\n\t']))
             if sep != ' ':
                 kinds.add('whitespace')
             if '\n' in sep:
                 kinds.add('line-breaks')
             if ws == 2 and draw(st.integers(0, 3)) == 0:
-                sep = '\n' + draw(st.sampled_from(['# comment', '#', '  # select * where 1 = 1', '#; order by a1 join b on a1 == b1', "# it's \"quoted\""])) + '\n'
+                nl = draw(st.sampled_from(['\n', '\n', '\r\n']))
+                sep = nl + draw(st.sampled_from(['# comment', '#', '  # select * where 1 = 1', '#; order by a1 join b on a1 == b1', "# it's \"quoted\"", '\t# tab-indented comment', ' \t #x'])) + nl
                 kinds.add('comment-lines')
         text += sep + p
     if ws == 2 and draw(st.booleans()):
         text = draw(st.sampled_from(['# leading comment\n', '   #x\n', '\n'])) + text
         kinds.add('comment-lines')
     if ws == 2 and draw(st.booleans()):
-        text = text + draw(st.sampled_from(['\n# trailing comment', '\n#', '\n', '  ']))
+        text = text + draw(st.sampled_from(['\n# trailing comment', '\n#', '\n', '  ', '\r\n', '\r\n\t# c\r\n']))
         kinds.add('comment-lines')
     if draw(st.integers(0, 5)) == 0:
         # list tables ignore query modifiers: appending one (keyword in any letter case) must change nothing
